@@ -193,6 +193,9 @@ def run(ctx):
     # a baseline that covers every month and weekday, but whose March Saturdays each lack 13 daytime hours of usage (a meter outage on
     # every Saturday of one month): still every calendar cell is covered, so the property's hypothesis holds
     gap_df = synth_hourly(days=365, seed=3)
+    # the site has distinct weekday and weekend load shapes (otherwise every calendar cell looks alike and any matching agrees)
+    wk_bump = lambda ix: 1.2 * ((ix.dayofweek >= 5) & (ix.hour >= 9) & (ix.hour < 17))  # noqa
+    gap_df["observed"] = gap_df["observed"] + wk_bump(gap_df.index)
     gmask = (gap_df.index.month == 3) & (gap_df.index.dayofweek == 5) & (gap_df.index.hour >= 7) & (gap_df.index.hour < 20)
     gap_df.loc[gmask, "observed"] = np.nan
     try:
@@ -208,6 +211,8 @@ def run(ctx):
         h = np.arange(len(idx))
         temp = pd.Series(55 + 20 * np.sin(h / 24 * 6.283), index=idx, name="temperature")
         obs = pd.Series(1.5 + 0.5 * np.sin(h / 12.0) ** 2, index=idx, name="observed")
+        if mname == "saturday_outages_in_march":
+            obs = obs + wk_bump(idx)          # the reporting period has the site's weekend shape too
         outs = {}
         for name, v in variants(obs, rng).items():
             df = pd.DataFrame({"temperature": temp.copy()})
